@@ -198,6 +198,10 @@ const STR_POOL: &[&str] = &[
     "rbxthumb://type=Asset&id=1&w=150&h=150",
     "rbxgameasset://Images/x",
     "RBXASSETID://5",
+    "\u{7f}",
+    "Press\u{7f}Delete",
+    "\u{80}\u{9f}",
+    "\u{fffd}\u{e000}\u{d7ff}",
     "a\rb",
     "a\r\nb",
     "\r",
@@ -646,9 +650,11 @@ impl VGen {
                 _ => r.next_u32(),
             })),
             VariantType::EnumItem => Variant::EnumItem(EnumItem {
-                ty: match r.below(3) {
+                ty: match r.below(5) {
                     0 => "Material".to_owned(),
                     1 => String::new(),
+                    // the ways an enum is spelled elsewhere: qualified, with the item appended, doubled
+                    3 => (*r.pick(&["Enum.Material", "Enum.Enum.Material", "Enum.", "Enum", "enum.Material", "Enum.Material.Plastic", "Material.Plastic", "EnumItem"])).to_owned(),
                     _ => self.string(r).chars().take(30).collect(),
                 },
                 value: match r.below(3) {
@@ -667,10 +673,13 @@ impl VGen {
                 Variant::Vector3int16(Vector3int16::new(self.i16(r), self.i16(r), self.i16(r)))
             }
             VariantType::CFrame => Variant::CFrame(self.cframe(r)),
-            VariantType::OptionalCFrame => Variant::OptionalCFrame(if r.chance(1, 3) {
-                None
-            } else {
-                Some(self.cframe(r))
+            VariantType::OptionalCFrame => Variant::OptionalCFrame(match r.below(6) {
+                0 | 1 => None,
+                // Some(value that looks like "nothing"): the identity at the origin is what the formats store next to an
+                // absent value, and it is a value all the same (so is the identity at a negative zero)
+                2 => Some(CFrame::new(Vector3::new(0.0, 0.0, 0.0), Matrix3::identity())),
+                3 if r.chance(1, 2) => Some(CFrame::new(Vector3::new(-0.0, 0.0, -0.0), Matrix3::identity())),
+                _ => Some(self.cframe(r)),
             }),
             VariantType::Color3 => Variant::Color3(self.color3(r)),
             VariantType::Color3uint8 => Variant::Color3uint8(Color3uint8::new(
